@@ -7,6 +7,7 @@ mod ed;
 mod hist;
 mod histfile;
 mod keys;
+mod lb;
 mod printer;
 mod pty;
 mod rawmode;
@@ -32,6 +33,7 @@ fn exec_line(req: &str) -> String {
         Some("hf") => histfile::exec(&f[1..]),
         Some(t) if t.starts_with("ed") => ed::exec(&f[1..]),
         Some("keys") => keys::exec(&f[1..]),
+        Some("lb") | Some("lb4") => lb::exec(&f[1..]),
         Some("raw") => rawmode::exec(&f[1..]),
         Some("render") => render::exec(&f[1..]),
         #[cfg(feature = "sqlite")]
@@ -122,6 +124,7 @@ fn main() {
                 "ed06" => ed::gen_profile(&ctx, "ed06", ed::Profile::Kill, &mut sink),
                 "ed05" => ed::gen_profile(&ctx, "ed05", ed::Profile::Undo, &mut sink),
                 "keys" => keys::gen(&ctx, &mut sink),
+                "lb" | "lb4" => lb::gen(&ctx, target, &mut sink),
                 "raw" => rawmode::gen(&ctx, &mut sink),
                 "render" => render::gen(&ctx, &mut sink),
                 #[cfg(feature = "sqlite")]
